@@ -551,7 +551,7 @@ def gen_case(rng, kind, tier, force=None):
         opts['solve_nl'] = rng.random() < 0.3
     else:
         opts['method'] = 'jax'
-        opts['jit'] = rng.random() < 0.3
+        opts['jit'] = rng.random() < 0.6
         opts['mf'] = rng.random() < 0.25
         opts['coloring'] = (not opts['mf']) and rng.random() < 0.45
         opts['decl'] = rng.choice(['infer', 'star', 'pairs', 'sparse'])
@@ -561,7 +561,8 @@ def gen_case(rng, kind, tier, force=None):
     if opts.get('static'):
         # multiply the first return by the static option value self.options['kopt'] (rendered later)
         vals['kopt'] = [rng.choice(['2', '3/2', '-1'])]
-    opts['both_modes'] = rng.random() < 0.5
+    opts['both_modes'] = rng.random() < 0.35
+    opts['mode'] = rng.choice(['fwd', 'rev'])
     if not opts.get('named', True) or kind == 'jic':
         # a bare name in a return statement is taken as the *name* of the return value
         for r in rets:
@@ -711,6 +712,17 @@ def screen(case):
         Ry = implicit_blocks(case, jac)[1]
         if np.linalg.cond(Ry) > 1e3:
             raise Reject('cond')
+    if case['opts'].get('method') == 'fd':
+        # a forward difference with step 1e-6 must be good to 2e-5: bound the curvature by moving
+        # every differentiable entry by the step and looking at the change of the exact jacobian
+        c2 = dict(case, vals={n: ([rat(Fraction(unrat(x)) + Fraction(1, 10 ** 6)) for x in v]
+                                  if n != 'kopt' and any(a['name'] == n and a['role'] != 'opt'
+                                                         for a in case['args']) else v)
+                              for n, v in case['vals'].items()})
+        _, jac2 = oracle_eval(c2)
+        for k, J in jac.items():
+            if np.max(np.abs(jac2[k] - J), initial=0.0) > 2e-5 * max(1.0, np.max(np.abs(J), initial=0.0)):
+                raise Reject('curvature')
     return vals, jac
 
 
@@ -970,7 +982,7 @@ def run_real(case):
             for a in ins:
                 p.model.connect('ivc.' + a['name'], 'c.' + a['name'])
             if implicit:
-                p.model.linear_solver = om.DirectSolver(assemble_jac=(mi == 0))
+                p.model.linear_solver = om.DirectSolver(assemble_jac=(mi == 0 and not o.get('mf')))
             stage = 'setup'
             p.setup(mode=mode, force_alloc_complex=(o['method'] == 'cs'))
             if implicit:
@@ -1004,14 +1016,15 @@ def run_real(case):
                                   for r in case['rets']}
                     res['out_shape'] = {r['name']: list(np.shape(p.get_val('c.' + r['name'])))
                                         for r in case['rets']}
-                stage = 'check_partials'
-                cpkw = {'form': 'central'} if o['method'] == 'fd' else {}
-                cp = p.check_partials(out_stream=None, compact_print=True, **cpkw)
-                part = {}
-                for (of, wrt), d in cp['c'].items():
-                    if 'J_fwd' in d:
-                        part['%s|%s' % (of, wrt)] = _dense(d['J_fwd']).tolist()
-                res['partials'] = part
+                if implicit:
+                    stage = 'check_partials'
+                    cpkw = {'form': 'central'} if o['method'] == 'fd' else {}
+                    cp = p.check_partials(out_stream=None, compact_print=True, **cpkw)
+                    part = {}
+                    for (of, wrt), d in cp['c'].items():
+                        if 'J_fwd' in d:
+                            part['%s|%s' % (of, wrt)] = _dense(d['J_fwd']).tolist()
+                    res['partials'] = part
                 res['coloring'] = _coloring_export(p.model.c) if o.get('coloring') else None
                 res['direction'] = p.model.c.best_partial_deriv_direction()
             stage = 'compute_totals'
@@ -1028,6 +1041,10 @@ def run_real(case):
                                          _dense(v).tolist() for (a, b), v in J.items()}
             else:
                 res['totals_' + mode] = {}
+            if mi == 0 and not implicit:
+                # an explicit component fed by IndepVarComps: d(out)/d(ivc) *is* the partial
+                res['partials'] = dict(res['totals_' + mode])
+                res['coloring'] = _coloring_export(p.model.c) if o.get('coloring') else None
         except Exception as e:    # the real code's exceptions are results
             res.update(_err(stage, e))
             res['mode'] = mode
@@ -1145,3 +1162,473 @@ def judge(case, impl):
             if not ok:
                 return {'what': 'fwd and rev totals differ for %s' % k, 'why': why, 'class': 'fwdrev'}
     return None
+
+
+# ================================================================================================
+# the Lean model's view of a case
+
+def model_func(case):
+    """(args, rets, vals) of the driver request, or None when the case leaves the modelled subset."""
+    kind = case['kind']
+    temps = {n: t for n, t in case['temps']}
+    if kind in ('jec', 'jic'):
+        margs = [a for a in case['args'] if a['role'] == 'in']
+        if kind == 'jic':
+            byname = {a['name']: a for a in case['args']}
+            margs = margs + [byname[r['name']] for r in case['rets']]
+    else:
+        margs = list(case['args'])
+    margs = [dict(a) for a in margs]
+    if case['opts'].get('static'):
+        margs.append({'name': 'kopt', 'role': 'opt', 'shape': []})
+    varidx = {a['name']: i for i, a in enumerate(margs)}
+    sh = {a['name']: tuple(a['shape']) for a in margs}
+    retidx = {r['name']: k for k, r in enumerate(case['rets'])}
+    jargs = []
+    for a in margs:
+        d = {'role': a['role'], 'shape': list(a['shape'])}
+        if a['role'] == 'state':
+            d['resid'] = retidx[a['name']]
+        jargs.append(d)
+    jrets = []
+    for k, r in enumerate(case['rets']):
+        t = substitute(r['expr'], temps)
+        if case['opts'].get('static') and k == 0:
+            t = ['mul', ['var', 'kopt'], t]
+        e = to_lean(t, sh, varidx)
+        if e is None:
+            return None
+        jrets.append({'shape': list(r['shape']), 'expr': e})
+    vals = [list(case['vals'][a['name']]) for a in margs]
+    return jargs, jrets, vals, [a['name'] for a in margs]
+
+
+def states_permuted(case):
+    st = [a['name'] for a in case['args'] if a['role'] == 'state']
+    return case['kind'] == 'ifc' and st != [r['name'] for r in case['rets']]
+
+
+def best_direction(case):
+    nout = sum(_size(r['shape']) for r in case['rets'])
+    nin = sum(_size(a['shape']) for a in case['args'] if a['role'] == 'in')
+    return 'fwd' if nout >= nin else 'rev'
+
+
+def has_T_on_expr(case):
+    """`(expr).T` with a non-name operand: the shape `get_function_deps` does not follow."""
+    trees = [t for _, t in case['temps']] + [r['expr'] for r in case['rets']]
+    return any(n[0] == 'T' and n[1][0] != 'var' for t in trees for n in walk(t))
+
+
+def sparse_pairs(case):
+    if case['opts'].get('decl') != 'sparse':
+        return 0
+    return sum(1 for of, wrt in _decl_pairs(case) if _is_elementwise_diag(case, of, wrt))
+
+
+def msg_key(msg):
+    import re
+    return re.sub(r'\d+', 'N', (msg or ''))[:72]
+
+
+# ================================================================================================
+# worker processes (jax is not fork-safe: the real code runs in fresh interpreters)
+
+def _worker_main():
+    import tempfile
+    import shutil
+    os.environ.setdefault('OPENMDAO_REPORTS', '0')
+    warnings.simplefilter('ignore')
+    d = tempfile.mkdtemp(prefix='omv_c34_')
+    os.chdir(d)
+    devnull = open(os.devnull, 'w')
+    real_out = os.fdopen(os.dup(1), 'w')
+    os.dup2(devnull.fileno(), 1)
+    os.dup2(devnull.fileno(), 2)
+    try:
+        for line in sys.stdin:
+            line = line.strip()
+            if not line:
+                continue
+            case = json.loads(line)
+            try:
+                res = run_real(case)
+            except Exception as e:     # harness-side failure, reported to the parent
+                res = {'harness_error': '%s: %s' % (type(e).__name__, str(e)[:300])}
+            real_out.write(json.dumps(res) + '\n')
+            real_out.flush()
+    finally:
+        os.chdir('/')
+        shutil.rmtree(d, ignore_errors=True)
+
+
+def run_pool(cases, nworkers):
+    """Run `run_real` on every case in `nworkers` fresh interpreters; returns results in order."""
+    if not cases:
+        return []
+    nworkers = max(1, min(nworkers, len(cases)))
+    env = dict(os.environ)
+    env.update({'OMP_NUM_THREADS': '1', 'OPENBLAS_NUM_THREADS': '1', 'MKL_NUM_THREADS': '1',
+                'XLA_FLAGS': '--xla_cpu_multi_thread_eigen=false intra_op_parallelism_threads=1',
+                'OPENMDAO_REPORTS': '0', 'JAX_PLATFORMS': 'cpu', 'PYTHONWARNINGS': 'ignore'})
+    shards = [list(range(k, len(cases), nworkers)) for k in range(nworkers)]
+    procs = []
+    for sh in shards:
+        data = ''.join(json.dumps(cases[i]) + '\n' for i in sh)
+        p = subprocess.Popen([sys.executable, os.path.abspath(__file__), '--worker'], env=env,
+                             stdin=subprocess.PIPE, stdout=subprocess.PIPE,
+                             stderr=subprocess.DEVNULL, text=True,
+                             cwd=os.path.dirname(os.path.abspath(__file__)))
+        procs.append((p, sh, data))
+    import threading
+    outs = [None] * len(procs)
+
+    def feed(k):
+        p, sh, data = procs[k]
+        outs[k] = p.communicate(data)[0]
+    threads = [threading.Thread(target=feed, args=(k,)) for k in range(len(procs))]
+    for t in threads:
+        t.start()
+    for t in threads:
+        t.join()
+    results = [None] * len(cases)
+    for k, (p, sh, data) in enumerate(procs):
+        lines = [l for l in (outs[k] or '').split('\n') if l.strip()]
+        if p.returncode != 0 or len(lines) != len(sh):
+            raise Infra('C34 worker %d: rc=%s, %d results for %d cases' % (k, p.returncode, len(lines),
+                                                                         len(sh)))
+        for i, l in zip(sh, lines):
+            r = json.loads(l)
+            if 'harness_error' in r:
+                raise Infra('C34 worker: %s' % r['harness_error'])
+            results[i] = r
+    return results
+
+
+# ================================================================================================
+
+KINDS = ['efc'] * 9 + ['ifc'] * 6 + ['jec'] * 3 + ['jic'] * 2
+
+
+class C34(Property):
+    pid = 'C34'
+    level = 'partial'
+    workers = 1              # parallelism is done with fresh interpreters (run_pool)
+    tolerance = TOL
+    required_theorems = [
+        'C34_outputs', 'C34_binding_inputs', 'C34_implicit_residual', 'C34_implicit_residual_partial',
+        'C34_implicit_residual_needs_order', 'C34_c_order', 'C34_partials_exact', 'C34_partials_sparse',
+        'C34_derivs2partials', 'C34_colored_expand', 'C34_colored_expand_checked',
+        'C34_implicit_partials', 'C34_ad_contract_expr', 'C34_partials_exact_expr']
+    rule = ("cases: a random smooth function written as Python source text (exec'd; body from + - * / "
+            "**2 **3, sin cos exp tanh sqrt, sum, dot, indexing, [::-1], slicing, outer, @, .T, axis sums, "
+            "rows/columns, shared temporaries) over 1-3 inputs of shapes (), (1,), (2,)..(5,), (2,2), "
+            "(2,3), (3,2), (1,3) and 1-3 return values of any reachable shape, wrapped as "
+            "ExplicitFuncComp (method jax / cs / fd / user compute_partials; use_jit; static option "
+            "argument; named or unnamed returns; shape= or val= metadata), ImplicitFuncComp (states "
+            "interleaved with inputs in the signature, optionally out of residual order; jax / cs / fd / "
+            "user linearize; solve_nonlinear callback), or as a generated JaxExplicitComponent / "
+            "JaxImplicitComponent subclass (compute_primal; matrix_free; use_jit; self.options static); "
+            "partials declared '*','*', per dependent pair, with rows/cols for elementwise pairs, or "
+            "(jax components) not at all; declare_coloring on/off; problem mode fwd, rev or both. "
+            "Observed through get_val / residuals / check_partials()['J_fwd'] / compute_totals. "
+            "Compared with NumPy execution of the same source text, with the harness's own dual-number "
+            "derivative of the expression tree (tolerance 1e-9 relative; 2e-4 for method='fd'), fwd "
+            "totals against rev totals, and — for bodies inside the Lean expression language — with the "
+            "Lean model's outputs and assembled jacobian (Rat exact for rational bodies, Float "
+            "otherwise). Non-trivial: the component ran and some exact partial is non-zero; distinct by "
+            "canonical case encoding.")
+    assumptions = [
+        "jax's jvp/vjp/jacfwd/jacrev return the exact derivative of the traced function (third-party "
+        "contract `IsJac`; validated on every case by the dual-number oracle, discharged in Lean for "
+        "the modelled expression language by C34_ad_contract_expr)",
+        "floats: values are multiples of 1/8 in [-1.5, 1.5]; cases whose values or derivatives exceed "
+        "1e3, divide by < 0.2, or (implicit) have cond(dR/dy) > 1e3 are redrawn; comparison is "
+        "|a-b| <= tol*max(1, max|expected block|)",
+        "method='cs' is compared at 1e-9 (complex step is exact to rounding); method='fd' only at 2e-4 "
+        "(accuracy of approximations is property C12)",
+        "the coloring object is an input of the model (algorithm: property C03); it is exported from "
+        "the component and checked by the validators coloringOkFwd/Rev on every case",
+    ]
+    level_text = ("The mechanism around the AD engine is modelled literally and proved for all signatures "
+                  "and shapes: argument binding and output unpacking (outputs/residuals equal the function "
+                  "of the same-named variables), C-order reshapes of the batched jvp/vjp blocks, the "
+                  "start:end stacking in both directions, declared rows/cols gathers, _jax_derivs2partials, "
+                  "colored evaluation + Coloring._expand_jac under a decidable properness certificate, and "
+                  "the output-first column reordering of ImplicitFuncComp; all 'GIVEN jvp = J·d, vjp = Jᵀ·w', "
+                  "a contract that is proved for the C14 expression language (forward mode over dual "
+                  "numbers) and assumed for jax. The current positional binding of implicit states is "
+                  "proved right only for states listed in residual order, with a kernel-checked "
+                  "counterexample. The model is tied to the four real component classes by differential "
+                  "runs on generated source-text functions.")
+    level_note = ("Trusted: Lean kernel + standard axioms; the harness; jax AD (contract, validated per case "
+                  "by an independent dual-number oracle); NumPy. Modelled, not verified: rounding. "
+                  "Differential only: jit, sparsity detection and the coloring algorithm (its result is "
+                  "validated per case), func_api metadata defaults, get_function_deps inference, "
+                  "matrix-free products, cs/fd approximations, 2-D linear algebra inside function bodies.")
+    technique = ("Lean 4 proof (list/index algebra, finite sums, structural induction via C14) + "
+                 "differential correspondence with an independent forward-mode oracle")
+    trusted_extra = [
+        "jax (jvp, vjp, jacfwd, jacrev, vmap, jit): contract IsJac, validated per case by the oracle",
+        "NumPy reshape/ravel are C-order (model: ravel/unravel; driver op c_order compared with "
+        "np.unravel_index on every run)",
+        "OpenMDAO's coloring algorithm (C03): its groups are inputs of the model, validated per case",
+    ]
+
+    flags = None
+    _cache = None
+
+    # -- probes: which variant of the code is in the tree ------------------------------------------
+    PROBE = {'kind': 'ifc',
+             'args': [{'name': 'x0', 'role': 'in', 'shape': []},
+                      {'name': 'y1', 'role': 'state', 'shape': [], 'resid': 'r1'},
+                      {'name': 'y0', 'role': 'state', 'shape': [], 'resid': 'r0'}],
+             'temps': [],
+             'rets': [{'name': 'y0', 'ret': 'r0', 'shape': [],
+                       'expr': ['sub', ['mul', ['lit', '2'], ['var', 'y0']], ['var', 'x0']]},
+                      {'name': 'y1', 'ret': 'r1', 'shape': [],
+                       'expr': ['mul', ['lit', '3'], ['var', 'y1']]}],
+             'vals': {'x0': ['1'], 'y0': ['5'], 'y1': ['7']},
+             'opts': {'method': 'cs', 'jit': False, 'coloring': False, 'decl': 'star',
+                      'named': True, 'solve_nl': False, 'both_modes': False, 'mode': 'fwd'}}
+
+    def setup(self, tier):
+        if self._cache is None:
+            self._cache = {}
+
+    def _set_flags(self, res):
+        """Does `_ordered_func_invals` bind the states by name (repaired) or positionally?"""
+        by_name = None
+        try:
+            r0 = res['out']['y0'][0]
+            if abs(r0 - 9.0) < 1e-12:
+                by_name = True
+            elif abs(r0 - 13.0) < 1e-12:
+                by_name = False
+        except Exception:
+            pass
+        if by_name is None:
+            raise Infra('C34 probe: cannot classify the binding of implicit states: %r' % (res,))
+        self.flags = {'byName': by_name}
+
+    def _ensure_flags(self):
+        if self.flags is None:
+            self._set_flags(self.run_impl(self.PROBE))
+
+    # -- cases ---------------------------------------------------------------------------------------
+    def draw(self, rng, kind, tier, force=None):
+        for _ in range(200):
+            case = gen_case(rng, kind, tier, force)
+            try:
+                screen(case)
+                return case
+            except (Reject, FloatingPointError, ZeroDivisionError, OverflowError):
+                continue
+        return None
+
+    def cases(self, rng, tier):
+        n = 60 if tier == 'quick' else 2400
+        out = []
+        forced = [
+            ('ifc', {'permute_states': True}),
+            ('efc', {'opts': {'method': 'jax', 'coloring': True, 'decl': 'star'}}),
+            ('efc', {'opts': {'method': 'jax', 'coloring': False}, 'modelled': True}),
+            ('jec', {'opts': {'coloring': True, 'mf': False, 'decl': 'star'}, 'modelled': True}),
+            ('jec', {'opts': {'mf': True, 'coloring': False}}),
+            ('jic', {'opts': {'coloring': False, 'mf': False}, 'modelled': True}),
+            ('ifc', {'opts': {'method': 'jax', 'coloring': False}, 'modelled': True,
+                     'permute_states': False}),
+            ('ifc', {'opts': {'method': 'jax', 'coloring': True}, 'permute_states': False}),
+        ]
+        reps = 1 if tier == 'quick' else 25
+        for _ in range(reps):
+            for kind, force in forced:
+                c = self.draw(rng, kind, tier, force)
+                if c is not None:
+                    out.append(c)
+        while len(out) < n:
+            c = self.draw(rng, rng.choice(KINDS), tier)
+            if c is not None:
+                out.append(c)
+        # the real code runs in fresh interpreters, in parallel; run_impl then reads the cache
+        todo = [c for c in [self.PROBE] + out if canon(c) not in self._cache]
+        nw = min(8, os.cpu_count() or 1)
+        for c, r in zip(todo, run_pool(todo, nw)):
+            self._cache[canon(c)] = r
+        self._ensure_flags()
+        return out
+
+    def run_impl(self, case):
+        if self._cache is None:
+            self._cache = {}
+        k = canon(case)
+        if k not in self._cache:
+            self._cache[k] = run_pool([case], 1)[0]
+        return self._cache[k]
+
+    # -- direct oracle -----------------------------------------------------------------------------
+    def oracle(self, case, impl):
+        try:
+            return judge(case, impl)
+        except Reject as e:
+            raise Infra('C34: a corpus/replay case is not well-conditioned: %s' % e)
+
+    def signature(self, case, impl, failure):
+        o = case['opts']
+        return {'kind': case['kind'], 'method': o.get('method'), 'coloring': bool(o.get('coloring')),
+                'decl': o.get('decl'), 'decl_sparse': sparse_pairs(case) > 0, 'mf': bool(o.get('mf')),
+                'states_permuted': states_permuted(case),
+                'single_arg': len(diff_args(case)) == 1,
+                'direction': best_direction(case),
+                'mode_mismatch': any(m != best_direction(case) for m in
+                                     (['fwd', 'rev'] if o.get('both_modes') else [o.get('mode', 'fwd')])),
+                'T_on_expr': has_T_on_expr(case),
+                'class': failure.get('class'), 'error': impl.get('error'),
+                'msg_key': msg_key(impl.get('msg')) if 'error' in impl else None}
+
+    def nontrivial(self, case, impl):
+        if 'error' in impl:
+            return False
+        return any(np.max(np.abs(np.asarray(v)), initial=0.0) > 0 for v in impl.get('partials', {}).values())
+
+    def bucket(self, case, impl):
+        o = case['opts']
+        dims = lambda xs: sorted({('scalar', '1-D', '2-D')[min(len(x['shape']), 2)] for x in xs})
+        b = ['kind=' + case['kind'], 'method=%s' % o.get('method'),
+             'coloring=%s' % ('requested' if o.get('coloring') else 'off'),
+             'decl=%s' % o.get('decl'), 'nrets=%d' % len(case['rets']),
+             'nargs=%d' % len(case['args']),
+             'modes=%s' % ('both' if o.get('both_modes') else o.get('mode', 'fwd')),
+             'impl_error' if 'error' in impl else 'impl_ok']
+        b += ['in_' + d for d in dims([a for a in case['args'] if a['role'] == 'in'])]
+        b += ['out_' + d for d in dims(case['rets'])]
+        for k in ('jit', 'mf', 'static', 'solve_nl'):
+            if o.get(k):
+                b.append(k)
+        if not o.get('named', True):
+            b.append('unnamed_returns')
+        if any(a['role'] == 'opt' for a in case['args']):
+            b.append('option_arg')
+        if case['temps']:
+            b.append('shared_temporary')
+        if states_permuted(case):
+            b.append('states_out_of_order')
+        if 'error' not in impl:
+            b.append('direction=' + str(impl.get('direction')))
+            if o.get('coloring'):
+                col = impl.get('coloring')
+                b.append('coloring_active' if col else 'coloring_deactivated')
+        mf = model_func(case)
+        b.append('lean_modelled' if mf is not None else 'oracle_only')
+        if mf is not None:
+            temps = {n: t for n, t in case['temps']}
+            b.append('carrier=rat' if all(is_rational(substitute(r['expr'], temps))
+                                          for r in case['rets']) else 'carrier=float')
+        return b
+
+    # -- Lean model --------------------------------------------------------------------------------
+    def _model_dir(self, case, impl):
+        if case['kind'] == 'ifc':
+            o = case['opts']
+            return 'fwd' if o.get('both_modes') else o.get('mode', 'fwd')
+        return impl.get('direction')
+
+    def model_requests(self, case, impl):
+        reqs = [{'op': 'c_order', 'shape': list(r['shape']) + [3], 'k': (7 * k + 5) % (3 * _size(r['shape']))}
+                for k, r in enumerate(case['rets'])][:1]
+        if 'error' in impl:
+            return reqs
+        mf = model_func(case)
+        if mf is None:
+            return reqs
+        self._ensure_flags()
+        jargs, jrets, vals, names = mf
+        o = case['opts']
+        coloring = None
+        d = self._model_dir(case, impl)
+        col = impl.get('coloring') if o.get('coloring') else None
+        if col and col.get(d):
+            coloring = {'nz': col['nz'], 'groups': col[d]}
+        elif col:
+            return reqs      # coloring of the other direction only: outside the model
+        reqs.append({'op': 'comp', 'kind': case['kind'], 'args': jargs, 'rets': jrets, 'vals': vals,
+                     'byName': bool(self.flags['byName']), 'dir': d, 'coloring': coloring})
+        return reqs
+
+    def compare(self, case, impl, answers):
+        a0 = answers[0]
+        r0 = case['rets'][0]
+        shp = tuple(r0['shape']) + (3,)
+        k = 5 % (3 * _size(r0['shape']))
+        if [int(i) for i in np.unravel_index(k, shp)] != a0['idx'] or a0['back'] != k or \
+                a0['size'] != int(np.prod(shp)):
+            raise Infra('C34: model unravel %r differs from np.unravel_index for shape %r, k=%d'
+                        % (a0, shp, k))
+        if len(answers) < 2:
+            return None
+        a = answers[1]
+        if not a.get('ok'):
+            if a.get('err') == 'unsupported':
+                return None
+            raise Infra('C34: driver rejected a generated case (%s)' % a.get('err'))
+        num = lambda s: float(unrat(s))
+        o = case['opts']
+        for k, r in enumerate(case['rets']):
+            ok, why = _close(impl['out'][r['name']], [num(x) for x in a['out'][k]], TOL)
+            if not ok:
+                return 'model value of %s differs from the implementation: %s' % (r['name'], why)
+        J = np.array([[num(x) for x in row] for row in a['J']], dtype=float)
+        E = np.array([[num(x) for x in row] for row in a['exact']], dtype=float)
+        if a.get('colorOk') is False:
+            return 'the coloring exported from the component fails the properness validator'
+        if J.size:
+            ok, why = _close(J, E, TOL)
+            if not ok:
+                return 'model: assembled jacobian differs from the exact partials: %s' % why
+        jaxlike = (case['kind'] in ('jec', 'jic') and not o.get('mf')) or o.get('method') == 'jax'
+        if not jaxlike:
+            return None
+        # blocks of the model jacobian in the implementation's (of, wrt) naming
+        mf = model_func(case)
+        names = mf[3]
+        implicit = case['kind'] in ('ifc', 'jic')
+        if implicit:
+            colnames = [names[p] for p in a['omVars']]
+        else:
+            colnames = [n for n, ar in zip(names, mf[0]) if ar['role'] != 'opt']
+        sizes = {n: _size(ar['shape']) for n, ar in zip(names, mf[0])}
+        ro = 0
+        for r in case['rets']:
+            nr = _size(r['shape'])
+            co = 0
+            for cn in colnames:
+                nc = sizes[cn]
+                got = impl['partials'].get('%s|%s' % (r['name'], cn))
+                blk = J[ro:ro + nr, co:co + nc]
+                if got is None:
+                    if np.max(np.abs(blk), initial=0.0) > 0:
+                        return 'model has a nonzero block (%s, %s) the implementation does not report' % (
+                            r['name'], cn)
+                else:
+                    ok, why = _close(got, blk, TOL)
+                    if not ok:
+                        return 'model block (%s, %s) differs from the implementation: %s' % (
+                            r['name'], cn, why)
+                co += nc
+            ro += nr
+        return None
+
+    def search(self, rng, budget_s):
+        n = 0
+        while True:
+            c = self.draw(rng, rng.choice(KINDS), 'quick')
+            if c is not None:
+                n += 1
+                yield c
+
+
+PROP = C34()
+
+if __name__ == '__main__' and '--worker' in sys.argv:
+    sys.path.insert(0, os.path.dirname(os.path.abspath(__file__)))
+    _worker_main()
